@@ -225,3 +225,36 @@ class get_all_tokens_encodings:
     def post_texts_of_the_token_listing(result, filter_by_categories, rest):
         sel = set(members(TokenCategory)) if filter_by_categories is None else closure(filter_by_categories)
         return result == [n.token.encoding for n in rest if n.token.category in sel]
+
+
+# ------------------------------------------------------------------------------------------------ is_monophonic
+@contract('kernpy.io.public.spine_types', props=['C17'], name='spine_types_summary', local=True,
+          assumed='abstraction of kp.spine_types(document, headers=[**kern]): the list of the **kern spine headers of the document (C06)')
+class spine_types_summary:
+    def model(document, headers):
+        return ghost_get('kern spine headers')
+
+
+@contract('kernpy.io.public.is_monophonic', props=['C17'])
+class is_monophonic:
+    """C17: monophonic iff exactly one **kern spine, no chord token, and at least one note or rest token -- the counts being those of
+    the token listing (CHORD, and NOTE_REST with its descendants); null tokens, errors and other core tokens are not notes"""
+    uses = ('dfs_summary', 'tokens_traversal_init_summary', 'spine_types_summary')
+    assumes = (A_PRE,)
+
+    def inputs(g):
+        if g.symbolic:
+            doc, rest = mk_listed_document(g)
+            kerns = g.seq('kern.headers', lambda e: '**kern')
+            ghost_set('kern spine headers', kerns)
+            return {'document': doc, '_rest': rest, '_kerns': len(kerns)}
+        doc, rest = native_listed_document(g)
+        import kernpy as kp
+        return {'document': doc, '_rest': rest, '_kerns': len(kp.spine_types(doc, headers=['**kern']))}
+
+    modifies = ()
+
+    def post_definition(result, rest, kerns):
+        chords = len([n for n in rest if n.token.category in closure([TokenCategory.CHORD])])
+        notes = len([n for n in rest if n.token.category in closure([TokenCategory.NOTE_REST])])
+        return iff(result, conj(kerns == 1, chords == 0, notes > 0))
